@@ -262,6 +262,76 @@ func corr(c *hc.Ctx) {
 		}
 	}
 
+	// 2b. the Bezier cutting loops of SplitAt: one curved segment, 1-4 cuts; the parameters t = invL(ts[j])
+	// are obtained from the same inverse arc length SplitAt builds (hook), the Lean model runs its
+	// cutting loop with the generated split function on these parameters, pieces compared bit-exactly
+	for it := 0; it < c.N; it++ {
+		cube := c.Bool()
+		pt := func() canvas.Point { return canvas.Point{X: c.GenCoord(), Y: c.GenCoord()} }
+		p0, p1, p2, p3 := pt(), pt(), pt(), pt()
+		p := &canvas.Path{}
+		p.MoveTo(p0.X, p0.Y)
+		kind := byte('Q')
+		if cube {
+			kind = 'C'
+			p.CubeTo(p1.X, p1.Y, p2.X, p2.Y, p3.X, p3.Y)
+		} else {
+			p.QuadTo(p1.X, p1.Y, p2.X, p2.Y)
+		}
+		if rs, ok := recsOf(p.Data()); !ok || len(rs) != 2 || rs[1].k != kind {
+			c.Count("cuts skip:builder-simplified-the-segment")
+			continue
+		}
+		var invL func(float64) float64
+		var dT float64
+		if msg := hc.Try(func() { invL, dT = canvas.VerifC09InvArcLength(kind, p0, p1, p2, p3) }); msg != "" || !(dT > 1e-6) || math.IsInf(dT, 0) {
+			c.Count("cuts skip:length-unusable")
+			continue
+		}
+		m := 1 + c.Intn(4)
+		ts := make([]float64, m)
+		for i := range ts {
+			ts[i] = dT * (0.05 + 0.9*(float64(i)+c.Range(0.2, 0.8))/float64(m))
+		}
+		tpar := make([]float64, m)
+		mono := true
+		for i := range ts {
+			tpar[i] = invL(ts[i] - 0.0)
+			if tpar[i] >= 1 || tpar[i] <= 0 || (i > 0 && tpar[i] <= tpar[i-1]) {
+				mono = false
+			}
+		}
+		if !mono {
+			c.Count("cuts skip:parameters-not-increasing-in-(0,1)")
+			continue
+		}
+		var qs []*canvas.Path
+		if msg := hc.Try(func() { qs = p.SplitAt(append([]float64{}, ts...)...) }); msg != "" {
+			c.Fail("panic:SplitAt:"+firstLine(msg), msg, map[string]any{"path": p.String(), "ts": ts})
+			continue
+		}
+		ok := len(qs) == m+1
+		out := make([]string, len(qs))
+		for i, q := range qs {
+			rs, dec := recsOf(q.Data())
+			if !dec || len(rs) != 2 || rs[1].k != kind {
+				ok = false // the builder turned a piece into a LineTo or dropped it
+			}
+			out[i] = hc.DataHex(q.Data())
+		}
+		if !ok {
+			c.Count("cuts skip:piece-simplified-by-the-builder")
+			continue
+		}
+		line := "QCUTS " + hc.Hs(p0.X, p0.Y, p1.X, p1.Y, p2.X, p2.Y)
+		if cube {
+			line = "CCUTS " + hc.Hs(p0.X, p0.Y, p1.X, p1.Y, p2.X, p2.Y, p3.X, p3.Y)
+		}
+		c.Case(line+" "+hc.Hs(tpar...), "=", strings.Join(out, " | "))
+		c.Count(fmt.Sprintf("cuts %c cuts:%d", kind, m))
+		c.Distinct(line + fmt.Sprint(ts))
+	}
+
 	// 3. ellipseSplit flag logic
 	for it := 0; it < c.N; it++ {
 		th0 := c.Range(0, 2*math.Pi)
